@@ -42,10 +42,16 @@ TRUSTED = [
     '(ndim > 1) or a scalar, copy.copy(arr) owns a new buffer, assignment broadcasts (surplus leading 1-dims dropped, lists converted with '
     'at most ndim(window) dimensions), int64 only; a tuple-of-ints key (numpy multi-dimensional index) is NOT modelled: the model skips the '
     'op, the real code still runs the copying ones and the ORACLE alone judges them; key_paths= views are not modelled',
+    'reserved keys vs plain strings of the same spelling: on the wire the reserved key is the bare string "SELF"/"SKIP", a plain str key is '
+    '{"s": "SELF"}; World.pkey builds Key.SELF / the str, the driver PKey.self / PKey.str "SELF"; `_is_key` is written out in '
+    'Model/TreeKey.lean (Python types of key objects, isinstance along Reserved<str and Index<int, == on key objects) and proved equal to the '
+    'pattern matching of Model/Tree.lean (C18_reserved_vs_plain_model); modelled-not-verified: Reserved subclasses str with inherited __eq__/__hash__',
 ]
 ASSUMPTIONS = [
     'leaves are int/str/None; ndarrays are int64, 1-D or 2-D, C-contiguous (owning arrays and views of them); dict keys are '
-    'str/int/Index/Literal objects (an Index and the equal int never in one dict); the view is built without key_paths',
+    'str/int/Index/Literal objects (an Index and the equal int never in one dict; str keys of ANY spelling, the spellings of the reserved keys included; '
+    'never a Reserved OBJECT, a bool or a float as a dict key of the input: 1 == True == 1.0 collide by value like Index(1) == 1 and are not modelled); '
+    'the view is built without key_paths',
     'no cyclic input data (in-place sets never store an ancestor); ndarray elements are assigned ints only where the get/set law is claimed',
 ]
 RULE = ('heaps of <= ~25 cells (trees of depth <= 4 of dict/list/tuple with int/str/None/ndarray leaves, ~15% aliased '
@@ -62,6 +68,14 @@ RULE = ('heaps of <= ~25 cells (trees of depth <= 4 of dict/list/tuple with int/
         'a copying set/update that changes the set of leaf paths (fresh key, append, leaf->subtree, subtree->leaf), iterate the '
         'derived view object itself, chains of these. Along a sequence the SAME view objects are used (the view an op returned is '
         'the one later ops read) and the items oracle is evaluated on every source and derived view object; '
+        '(c) SC18, user keys that collide BY VALUE with reserved / special keys: dict keys drawn from a pool of PLAIN strings spelled '
+        "'SELF', 'SKIP', '', 'Index(0)', 'Literal(1)', \"Reserved('SELF')\", 'DEFAULT_FILTER', '0', ... — fixed fresh paths through them on NullMap / {} / []; "
+        'small-exhaustive: every path of length <= 2 (<= 3 on a 3-level tree) over an alphabet holding the plain AND the reserved spellings on trees with such keys '
+        '(copying set + read back + items + apply, read + in-place set + items, multi-key set + read); a directed arm cycling operation kind x spelling x depth '
+        '(the plain key 0..3 levels down, dict/list/tuple levels above it, siblings beside it, a random subtree below it; first op through the key, then read-back / '
+        'items of the result / the same path with the RESERVED key swapped in / fresh paths through the spellings); the random arm again with 60% of the dicts keyed '
+        'from the pool and 12% of the paths with one plain<->reserved swap. ENFORCED coverage (exit 2 otherwise): each of get / multi-key get / copying set / multi-key set / '
+        "copy_and_update / in-place set / items / apply SUCCEEDED on an input root through a plain 'SELF' and through a plain 'SKIP' dict key at depth 0, 1 and >= 2; "
         'non-trivial = at least one successful copying set/update/apply on a container root of depth >= 2')
 
 
@@ -1009,6 +1023,12 @@ def extra(ctx):
   missing = [f'{k}/{x}' for k, xs in need.items() for x in xs if not _STATS.get(k, {}).get(x)]
   if missing:
     ctx.notes.append('coverage holes: ' + ', '.join(missing))
+  # ENFORCED (infrastructure failure, not a verdict): every operation kind succeeded on a path through a plain str key
+  # spelled 'SELF' and one spelled 'SKIP', at depth 0, 1 and >= 2 (seeded change C18-m3 lives exactly there)
+  holes = [x for x in RESERVED_NEED if not _STATS.get('reserved-spelling', {}).get(x)]
+  if holes:
+    from harness.core import InfraError
+    raise InfraError(f'C18 generator missed promised classes (keys spelled like reserved keys): {holes}')
 
 
 def _walk_ids(d, acc):
@@ -1129,6 +1149,7 @@ def nontrivial(case, obs):
       _keyobj_stats(case, op, o, kind)
     if not o.get('skipped'):
       _nd_stats(case, op, o, kind)
+      _reserved_stats(case, op, o, kind)
     if o.get('skipped'):
       _stat('outcome', kind + ':skipped')
       continue
@@ -1162,15 +1183,57 @@ def finding(case, what):
 
 # ----------------------------------------------------------------------------- generation
 
+# User data whose KEYS collide by value with the reserved / special keys of tree.py (work package SC18; the seeded
+# change C18-m3 — `_is_key` comparing reserved keys by str VALUE — was invisible to a generator whose dict keys were
+# 'a' 'b' 'c' 0 1).  `Key.SELF` / `Key.SKIP` are `Reserved` (a str subclass) instances: Reserved('SELF') == 'SELF',
+# same hash.  A mapping with the ORDINARY str key 'SELF' or 'SKIP' is a legal tree and the key an ordinary key.  On
+# the wire (case JSON, driver JSON) the reserved key is the bare string "SELF" / "SKIP" and the plain str key is
+# {"s": "SELF"}; in the Lean model `PKey.self` / `PKey.skip` vs `PKey.str "SELF"`.
+RESERVED_SPELLINGS = ['SELF', 'SKIP']
+# further spellings that look like a special key's repr / value but are ordinary strings
+LOOKALIKES = ['', 'Index(0)', 'Literal(1)', "Reserved('SELF')", 'DEFAULT_FILTER', '0', 'self', 'Key.SKIP']
+
+
+def collide_pool(rng):
+  """Three distinct plain str dict keys; 'SELF' / 'SKIP' are in it with probability ~0.75 each."""
+  ks = [s for s in RESERVED_SPELLINGS if rng.random() < 0.75]
+  rest = LOOKALIKES + ['a', 'b']
+  while len(ks) < 3:
+    c = rng.choice(rest)
+    if c not in ks:
+      ks.append(c)
+  return [{'s': x} for x in ks]
+
+
+def is_spelling(k):
+  """the wire form of a PLAIN str key spelled like a reserved key"""
+  return isinstance(k, dict) and k.get('s') in RESERVED_SPELLINGS
+
+
+def swap_reserved(rng, p):
+  """The same path with ONE element changed from the plain str key 'SELF'/'SKIP' to the reserved key of that spelling,
+  or from a reserved key to the plain str: both directions of 'the implementation tells them apart'."""
+  at = [i for i, k in enumerate(p) if is_spelling(k) or k in RESERVED_SPELLINGS]
+  if not at:
+    return None
+  i = rng.choice(at)
+  q = copy.deepcopy(p)
+  q[i] = p[i]['s'] if isinstance(p[i], dict) else {'s': p[i]}
+  return q
+
+
 class Gen:
   """Builds a heap (cells only refer to earlier cells => acyclic), value pool and ops."""
 
   SKEYS = ['a', 'b', 'c', 'SKIP']
   IKEYS = [0, 1, 5]
 
-  def __init__(self, rng):
+  def __init__(self, rng, collide=0.0):
     self.rng = rng
     self.cells = []
+    # probability that a dict draws its keys from COLLIDE_POOL (plain str keys that collide BY VALUE with the
+    # reserved / special keys of tree.py).  0.0 = the generator of the earlier rounds, bit for bit (no extra draw).
+    self.collide = collide
 
   def add(self, cell):
     self.cells.append(cell)
@@ -1201,6 +1264,8 @@ class Gen:
       if rng.random() < 0.12:          # an Index OBJECT as a key of an input dict (never next to the equal int)
         j = 3 + rng.randrange(2)
         pool[j] = {'x': pool[j]['i']}
+      if self.collide and rng.random() < self.collide:
+        pool = collide_pool(rng) + pool[3:]
       rng.shuffle(pool)
       es = [[pool[j], kids[j]] for j in range(n)]
       return self.add({'t': 'dict', 'es': es})
@@ -1260,10 +1325,26 @@ class Gen:
         [{'x': 1}], [{'s': 'n'}, {'x': 2}], [{'s': 'n'}, 'SELF'], [{'s': 'n'}, 'SELF', {'s': 'z'}], [{'s': 'n'}, 'SKIP'],
         [{'s': 'n'}, 'SKIP', {'s': 'b'}], ['SELF'], ['SKIP'], ['SELF', {'s': 'q'}], ['SKIP', {'s': 'q'}],
     ]
+    if self.collide and rng.random() < 0.5:      # fresh paths THROUGH plain str keys spelled like reserved keys
+      tails = [
+          [{'s': 'SELF'}], [{'s': 'SKIP'}], [{'s': 'n'}, {'s': 'SELF'}], [{'s': 'n'}, {'s': 'SKIP'}, {'s': 'x'}],
+          [{'s': 'SELF'}, {'s': 'x'}], [{'s': 'SKIP'}, {'x': 0}], [{'s': 'SELF'}, 'SELF'], [{'s': 'SKIP'}, 'SKIP'],
+          [{'s': 'n'}, {'s': 'SELF'}, {'s': 'SKIP'}], [{'x': 0}, {'s': 'SKIP'}], [{'s': 'SELF'}, 'SKIP', {'s': 'x'}],
+          [{'s': ''}], [{'s': 'Index(0)'}, {'s': 'Literal(1)'}],
+      ]
     return copy.deepcopy(rng.choice(tails))
 
   def path(self, root, nlits, pool):
-    """A key path of a random flavour; returns (path, flavour, ref reached by the existing part)."""
+    """A key path of a random flavour; returns (path, flavour, ref reached by the existing part).  With `collide`:
+    now and then ONE plain 'SELF'/'SKIP' element is swapped for the reserved key of that spelling or vice versa."""
+    p, fl, cur = self._path0(root, nlits, pool)
+    if self.collide and self.rng.random() < 0.12:
+      q = swap_reserved(self.rng, p)
+      if q is not None:
+        return q, 'swapped', cur
+    return p, fl, cur
+
+  def _path0(self, root, nlits, pool):
     rng = self.rng
     p, cur = self.existing_path(root)
     f = rng.random()
@@ -1292,8 +1373,8 @@ class Gen:
     return p, 'existing', cur
 
 
-def make_case(rng, malformed=False, depth=None):
-  g = Gen(rng)
+def make_case(rng, malformed=False, depth=None, collide=0.0):
+  g = Gen(rng, collide)
   depth = rng.choice([1, 2, 3, 3, 4]) if depth is None else depth
   r = rng.random()
   if r < 0.05:
@@ -1377,7 +1458,9 @@ def make_case(rng, malformed=False, depth=None):
         q = g.path(tgt, nlits, pool)[0]
         if q:
           pairs.append([q, rng.choice(values)])
-      uniq = len({repr(q).replace("'x'", "'i'") for q, _ in pairs}) == len(pairs)   # Index(1) == 1 as a dict key
+      # `asdict` builds a Python dict keyed by the Key tuples: paths that are EQUAL as tuples would collapse into one
+      # entry — Index(1) == 1, and Reserved('SELF') == 'SELF' (the reserved key and the plain str of that spelling)
+      uniq = len({repr([({'s': k} if isinstance(k, str) else k) for k in q]).replace("'x'", "'i'") for q, _ in pairs}) == len(pairs)
       nolit = not any(isinstance(x, dict) and 'l' in x for q, _ in pairs for x in q)
       op = {'op': 'update', 'root': tgt_spec, 'pairs': pairs, 'asdict': uniq and nolit and rng.random() < 0.6}
       feats.append('update')
@@ -1633,6 +1716,253 @@ def make_memo_case(rng):
   return {'strict': False, 'heap': g.cells, 'root': root, 'ops': ops[:6]}
 
 
+RESERVED_KINDS = ['get', 'multiget', 'set', 'multiset', 'update', 'inplace', 'items', 'apply']
+
+
+def make_reserved_case(rng, i):
+  """Directed arm (SC18): a tree with a dict that holds the PLAIN str key 'SELF' or 'SKIP' at a chosen depth (0..3 keys
+  above it: dict / list / tuple levels, their keys from the colliding pool too), siblings next to it (frame), a random
+  subtree below it — and a first operation of a chosen kind (get / multi-key get / copying set / multi-key set /
+  copy_and_update / in-place set / items / apply) whose path goes THROUGH that key on the input root; then reads /
+  items of the result, the same path with the reserved key swapped in, fresh paths through the plain spellings.
+  `i` cycles kind x spelling x depth so every combination is hit whatever the seed."""
+  kind = RESERVED_KINDS[i % len(RESERVED_KINDS)]
+  spelling = RESERVED_SPELLINGS[(i // len(RESERVED_KINDS)) % 2]
+  depth = (i // (2 * len(RESERVED_KINDS))) % 4
+  g = Gen(rng, collide=0.5)
+  under = g.node(rng.choice([0, 1, 1, 2]), alias=0.0)
+  sib_keys = [{'s': x} for x in RESERVED_SPELLINGS if x != spelling and rng.random() < 0.6]
+  for c in rng.sample(LOOKALIKES + ['a', 'b'], 2) + [rng.choice([{'i': 0}, {'i': 1}, {'x': 1}])]:
+    if rng.random() < 0.6:
+      sib_keys.append(c if isinstance(c, dict) else {'s': c})
+  es = [[{'s': spelling}, under]] + [[k, g.node(rng.choice([0, 1]), alias=0.0)] for k in sib_keys]
+  rng.shuffle(es)
+  cur = g.add({'t': 'dict', 'es': es})
+  pre = []
+  for _ in range(depth):
+    how = rng.choice(['dict', 'dict', 'list', 'tuple'])
+    if how == 'dict':
+      k = rng.choice(collide_pool(rng) + [{'s': 'a'}, {'i': 0}, {'x': 1}])
+      others = [kk for kk in collide_pool(rng) if kk != k][:rng.randrange(0, 3)]
+      es2 = [[k, cur]] + [[kk, g.leaf()] for kk in others]
+      rng.shuffle(es2)
+      cur = g.add({'t': 'dict', 'es': es2})
+      pre.insert(0, g.dkey_to_pkey(k, False))
+    else:
+      n_before = rng.randrange(0, 3)
+      rs = [g.leaf() for _ in range(n_before)] + [cur] + [g.leaf() for _ in range(rng.randrange(0, 2))]
+      cur = g.add({'t': how, 'rs': rs})
+      pre.insert(0, {'x': n_before} if rng.random() < 0.8 else {'i': n_before})
+  root = cur
+  through = pre + [{'s': spelling}]
+  below, reached = [], under
+  for _ in range(5):                 # frame / get-set laws: no negative index
+    b, rr = g.existing_path(under, maxlen=2)
+    if not any(isinstance(k, dict) and k.get('x', 0) < 0 for k in b):
+      below, reached = b, rr
+      break
+  P = through + (below if rng.random() < 0.6 else [])
+  sibs = [pre + [g.dkey_to_pkey(k, False)] for k in sib_keys] or [pre + [{'s': 'fresh'}]]
+  Q = rng.choice(sibs)
+  scal = [g.add({'t': 'int', 'v': v}) for v in (61, 62)] + [g.add({'t': 'str', 'v': 'NEW'}), g.add({'t': 'none'})]
+  sub = g.add({'t': 'dict', 'es': [[{'s': rng.choice(RESERVED_SPELLINGS)}, scal[0]], [{'s': 'p'}, scal[1]]]})
+  val = rng.choice(scal + [sub])
+  tup = g.add({'t': 'tuple', 'rs': [val, scal[1]]})
+  uniq = g.add({'t': 'list', 'rs': [g.add({'t': 'int', 'v': 77})]})
+  bare = lambda p: len(p) == 1 and rng.random() < 0.5
+  ops = []
+  if kind == 'get':
+    ops.append({'op': rng.choice(['get', 'getd']), 'root': root, 'keys': {'path': P}, 'bare': bare(P)})
+  elif kind == 'multiget':
+    ops.append({'op': rng.choice(['get', 'get', 'getd']), 'root': root, 'keys': {'multi': [P, Q] if rng.random() < 0.5 else [Q, P, through]},
+                'bare': False, 'aslist': rng.random() < 0.2})
+  elif kind == 'set':
+    op = {'op': 'set', 'root': root, 'keys': {'path': P}, 'value': val, 'in_place': False, 'bare': bare(P)}
+    if rng.random() < 0.3:      # set-same: the value is the object the path reads now
+      op['value'] = reached if P != through else under
+      op['same'] = True
+    ops.append(op)
+  elif kind == 'multiset':
+    ops.append({'op': 'set', 'root': root, 'keys': {'multi': [P, Q]}, 'value': tup, 'in_place': False, 'bare': False,
+                'aslist': rng.random() < 0.2})
+  elif kind == 'update':
+    ops.append({'op': 'update', 'root': root, 'pairs': [[P, val], [Q, scal[1]]] if rng.random() < 0.6 else [[P, val]],
+                'asdict': rng.random() < 0.5})
+  elif kind == 'inplace':
+    ops.append({'op': 'set', 'root': root, 'keys': {'path': P}, 'value': rng.choice(scal[:3] + [uniq]), 'in_place': True})
+  elif kind == 'items':
+    ops.append({'op': 'items', 'root': root})
+  else:
+    ops.append({'op': 'apply', 'root': root, 'fn': rng.choice(['inc', 'wrap', 'pair', 'const', 'id'])})
+  res = {'res': 0} if kind in ('set', 'multiset', 'update', 'apply') else root
+  # follow-ups: read the path back on the result, iterate the result, the reserved key at the same place, a fresh path
+  for _ in range(rng.randrange(1, 4)):
+    r = rng.random()
+    if r < 0.3:
+      ops.append({'op': 'get', 'root': res, 'keys': {'path': P}})
+    elif r < 0.45:
+      ops.append({'op': 'items', 'root': res})
+    elif r < 0.6:
+      q = swap_reserved(rng, P)
+      if rng.random() < 0.5:
+        ops.append({'op': 'get', 'root': root, 'keys': {'path': q}})
+      else:
+        ops.append({'op': 'set', 'root': root, 'keys': {'path': q}, 'value': scal[0], 'in_place': False})
+    elif r < 0.75:
+      q = through[:rng.randrange(len(through))] + [{'s': 'nn'}] + [{'s': x} for x in rng.sample(RESERVED_SPELLINGS, rng.randrange(1, 3))] + \
+          ([{'s': 'x'}] if rng.random() < 0.5 else [])
+      ops.append({'op': 'set', 'root': root, 'keys': {'path': q}, 'value': scal[1], 'in_place': False})
+      ops.append({'op': 'get', 'root': {'res': len(ops) - 1}, 'keys': {'path': q}})
+    elif r < 0.85:
+      ops.append({'op': 'get', 'root': res, 'keys': {'multi': [Q, P]}, 'bare': False})
+    else:
+      ops.append({'op': 'apply', 'root': res, 'fn': rng.choice(['inc', 'wrap', 'const'])})
+  return {'strict': False, 'heap': g.cells, 'root': root, 'ops': ops[:6]}
+
+
+def fresh_reserved_cases():
+  """Fresh paths through the plain spellings on an EMPTY view and on `{}` / `[]` (tree.py `_default_tree`)."""
+  S = lambda x: {'s': x}
+  tails = [[S('SELF')], [S('SKIP')], [S('SELF'), S('x')], [S('SKIP'), S('x')], [S('x'), S('SELF')], [S('x'), S('SKIP')],
+           [S('SELF'), S('SKIP')], [S('SKIP'), S('SELF')], [S('SELF'), 'SELF'], [S('SKIP'), 'SKIP', S('x')],
+           [S('SELF'), {'x': 0}], [{'x': 0}, S('SKIP')], [S('x'), S('SELF'), S('y')], [S('')], [S('Index(0)')]]
+  for root_cell in ({'t': 'null'}, {'t': 'dict', 'es': []}, {'t': 'list', 'rs': []}):
+    for p in tails:
+      heap = [dict(root_cell), {'t': 'int', 'v': 1}]
+      yield {'strict': False, 'heap': heap, 'root': 0, 'ops': [
+          {'op': 'set', 'root': 0, 'keys': {'path': p}, 'value': 1, 'in_place': False, 'bare': len(p) == 1},
+          {'op': 'get', 'root': {'res': 0}, 'keys': {'path': p}},
+          {'op': 'items', 'root': {'res': 0}},
+          {'op': 'apply', 'root': {'res': 0}, 'fn': 'inc'}]}
+
+
+FIXED_TREES_R = [
+    # {'SELF': {'w': 1}, 'SKIP': [1, 2], 'a': 2}
+    ([{'t': 'int', 'v': 1}, {'t': 'int', 'v': 2}, {'t': 'dict', 'es': [[{'s': 'w'}, 0]]}, {'t': 'list', 'rs': [0, 1]},
+      {'t': 'dict', 'es': [[{'s': 'SELF'}, 2], [{'s': 'SKIP'}, 3], [{'s': 'a'}, 1]]}], 4),
+    # {'a': {'SELF': 1, 'SKIP': 2}, 'SKIP': ({'SELF': 1},)}
+    ([{'t': 'int', 'v': 1}, {'t': 'int', 'v': 2}, {'t': 'dict', 'es': [[{'s': 'SELF'}, 0], [{'s': 'SKIP'}, 1]]},
+      {'t': 'dict', 'es': [[{'s': 'SELF'}, 0]]}, {'t': 'tuple', 'rs': [3]},
+      {'t': 'dict', 'es': [[{'s': 'a'}, 2], [{'s': 'SKIP'}, 4]]}], 5),
+]
+ALPHABET_R = [{'s': 'SELF'}, {'s': 'SKIP'}, {'s': 'w'}, {'s': 'a'}, {'x': 0}, 'SELF', 'SKIP']
+# {'a': {'SELF': {'SKIP': 1}}, 'SELF': 2}: every path of length <= 3 over the plain and the reserved spellings
+DEEP_TREE_R = ([{'t': 'int', 'v': 1}, {'t': 'int', 'v': 2}, {'t': 'dict', 'es': [[{'s': 'SKIP'}, 0]]}, {'t': 'dict', 'es': [[{'s': 'SELF'}, 2]]},
+                {'t': 'dict', 'es': [[{'s': 'a'}, 3], [{'s': 'SELF'}, 1]]}], 4)
+ALPHABET_DEEP = [{'s': 'a'}, {'s': 'SELF'}, {'s': 'SKIP'}, 'SELF', 'SKIP']
+
+
+def exhaustive_reserved_cases():
+  """Small-exhaustive part of the class: every path of length <= 2 (<= 3 on the deep tree) over an alphabet that holds
+  the plain str keys 'SELF' / 'SKIP' AND the reserved keys, on trees that have such dict keys: copying set + read back +
+  items of the result; read + in-place set + items; multi-key set + multi-key read."""
+  def triple(base, root, p, v):
+    yield {'strict': False, 'heap': copy.deepcopy(base), 'root': root, 'ops': [
+        {'op': 'set', 'root': root, 'keys': {'path': p}, 'value': v, 'in_place': False},
+        {'op': 'get', 'root': {'res': 0}, 'keys': {'path': p}},
+        {'op': 'items', 'root': {'res': 0}},
+        {'op': 'apply', 'root': {'res': 0}, 'fn': 'inc'}]}
+    yield {'strict': False, 'heap': copy.deepcopy(base), 'root': root, 'ops': [
+        {'op': 'get', 'root': root, 'keys': {'path': p}},
+        {'op': 'set', 'root': root, 'keys': {'path': p}, 'value': v, 'in_place': True},
+        {'op': 'items', 'root': root}]}
+  for cells, root in FIXED_TREES_R:
+    n = len(cells)
+    base = copy.deepcopy(cells) + [{'t': 'int', 'v': 99}, {'t': 'int', 'v': 98}, {'t': 'tuple', 'rs': [n, n + 1]}]
+    for p in [[]] + [[a] for a in ALPHABET_R] + [[a, b] for a in ALPHABET_R for b in ALPHABET_R]:
+      yield from triple(base, root, p, n)
+    for a in ALPHABET_R:
+      for b in ALPHABET_R:
+        yield {'strict': False, 'heap': copy.deepcopy(base), 'root': root, 'ops': [
+            {'op': 'set', 'root': root, 'keys': {'multi': [[a], [b]]}, 'value': n + 2, 'in_place': False, 'bare': True},
+            {'op': 'get', 'root': {'res': 0}, 'keys': {'multi': [[a], [b]]}, 'bare': True}]}
+  cells, root = DEEP_TREE_R
+  n = len(cells)
+  base = copy.deepcopy(cells) + [{'t': 'int', 'v': 99}]
+  A = ALPHABET_DEEP
+  for p in [[a] for a in A] + [[a, b] for a in A for b in A] + [[a, b, c] for a in A for b in A for c in A]:
+    yield from triple(base, root, p, n)
+
+
+def _reserved_depths(heap, r, acc, d=0, seen=None):
+  """(spelling, depth) of every plain 'SELF'/'SKIP' dict key below cell r (depth = number of keys above it)."""
+  seen = set() if seen is None else seen
+  if (r, d) in seen or d > 8:
+    return acc
+  seen.add((r, d))
+  c = heap[r]
+  if c['t'] == 'dict':
+    for k, v in c['es']:
+      if is_spelling(k):
+        acc.add((k['s'], min(d, 2)))
+      _reserved_depths(heap, v, acc, d + 1, seen)
+  elif c['t'] in ('list', 'tuple'):
+    for v in c['rs']:
+      _reserved_depths(heap, v, acc, d + 1, seen)
+  return acc
+
+
+def _through_reserved(heap, r, p):
+  """[(spelling, depth)] of the plain 'SELF'/'SKIP' dict keys that the path `p`, walked on the input heap from cell r,
+  goes through (the key must be an entry of the dict it meets: an EXISTING ordinary key)."""
+  out = []
+  for d, k in enumerate(p):
+    c = heap[r]
+    nxt = None
+    if not isinstance(k, dict):
+      break                       # a reserved key ends the walk
+    if c['t'] == 'dict':
+      for dk, v in c['es']:
+        if dk == k or (('i' in dk or 'x' in dk) and ('i' in k or 'x' in k) and dk.get('i', dk.get('x')) == k.get('x', k.get('i'))):
+          nxt = v
+      if nxt is not None and is_spelling(k):
+        out.append((k['s'], min(d, 2)))
+    elif c['t'] in ('list', 'tuple') and ('x' in k or 'i' in k):
+      j = k.get('x', k.get('i'))
+      if -len(c['rs']) <= j < len(c['rs']):
+        nxt = c['rs'][j]
+    if nxt is None:
+      break
+    r = nxt
+  return out
+
+
+def _reserved_stats(case, op, o, kind):
+  """Coverage of the class 'user keys spelled like reserved keys': which operation kinds SUCCEEDED on an input root
+  with a path through a plain 'SELF'/'SKIP' dict key, per spelling and depth (items / apply: the tree holds one)."""
+  if not isinstance(op.get('root'), int) or o.get('err') is not None or o.get('skipped'):
+    return
+  heap, r = case['heap'], op['root']
+  if kind in ('items', 'apply'):
+    if kind == 'apply' and op.get('fn') == 'none':
+      return
+    hits = _reserved_depths(heap, r, set())
+    name = kind
+  else:
+    if kind == 'update':
+      ps, name = [p for p, _ in op['pairs']], 'update'
+    elif op.get('keys') == 'empty' or 'keys' not in op:
+      return
+    else:
+      ps = keys_paths(op['keys'])
+      multi = 'multi' in op['keys']
+      name = {'get': 'multiget' if multi else 'get', 'getd': 'multiget' if multi else 'get',
+              'set': 'multiset' if multi else 'set', 'inplace': 'inplace'}.get(kind)
+      if name is None:
+        return
+      if o.get('default'):
+        return
+    hits = set()
+    for p in ps:
+      hits.update(_through_reserved(heap, r, p))
+  for sp, d in hits:
+    _stat('reserved-spelling', f'{name}: through plain {sp!r} at depth {d if d < 2 else "2+"}')
+
+
+RESERVED_NEED = [f'{name}: through plain {sp!r} at depth {d}' for name in RESERVED_KINDS for sp in RESERVED_SPELLINGS
+                 for d in ('0', '1', '2+')]
+
+
 def gen_cases(ctx):
   for c in ctx.corpus():
     yield c
@@ -1655,6 +1985,27 @@ def gen_cases(ctx):
       ctx.count('op', f)
     ctx.count('nops', len(case['ops']))
     ctx.count('root', case['heap'][case['root']]['t'])
+    yield case
+  # --- SC18: user keys that collide by value with reserved / special keys.  These stages come LAST so that the
+  # stages above draw exactly what they drew in the earlier rounds for the same seed.
+  n = 0
+  for c in fresh_reserved_cases():
+    n += 1
+    yield c
+  ctx.count('stage', 'reserved-spelling fresh paths (fixed)', n)
+  n = 0
+  for c in exhaustive_reserved_cases():
+    n += 1
+    yield c
+  ctx.count('stage', 'reserved-spelling exhaustive', n)
+  for i in range(1440 if ctx.quick else 24000):
+    ctx.count('stage', 'reserved-spelling directed')
+    yield make_reserved_case(rng, i)
+  for i in range(1500 if ctx.quick else 25000):
+    case, feats = make_case(rng, malformed=(i % 10 == 0), collide=0.6)
+    for f in feats:
+      ctx.count('op(colliding keys)', f)
+    ctx.count('stage', 'reserved-spelling random (dict keys from the colliding pool)')
     yield case
 
 
